@@ -115,6 +115,27 @@ impl<T: Alignment> Read for AlignedCursor<T> {
         self.pos += to_copy;
         Ok(to_copy)
     }
+
+    fn read_exact(&mut self, buf: &mut [u8]) -> std::io::Result<()> {
+        if buf.is_empty() {
+            return Ok(());
+        }
+        let rem = self.len.saturating_sub(self.pos);
+        if buf.len() > rem {
+            // As in std::io::Cursor, the only possible error is EOF,
+            // and it leaves the cursor at the end of the data, even
+            // when the position was beyond it.
+            self.pos = self.len;
+            return Err(std::io::Error::new(
+                std::io::ErrorKind::UnexpectedEof,
+                "failed to fill whole buffer",
+            ));
+        }
+        let pos = self.pos;
+        buf.copy_from_slice(&self.as_bytes()[pos..pos + buf.len()]);
+        self.pos += buf.len();
+        Ok(())
+    }
 }
 
 impl<T: Alignment> Write for AlignedCursor<T> {
@@ -151,6 +172,13 @@ impl<T: Alignment> Write for AlignedCursor<T> {
         self.pos += len;
         self.len = self.len.max(self.pos);
         Ok(len)
+    }
+
+    fn write_all(&mut self, buf: &[u8]) -> std::io::Result<()> {
+        // write() takes the whole buffer or fails. As in std::io::Cursor,
+        // an empty buffer still fills the gap up to the position, which
+        // the provided method (no call to write()) would not do.
+        self.write(buf).map(|_| ())
     }
 
     fn flush(&mut self) -> std::io::Result<()> {
